@@ -1882,6 +1882,14 @@ func (fc *fnCtx) execSimple(st *State, fr *frame, ins ssa.Instruction, k func(*S
 			}
 			if named != nil {
 				fc.trackObject(st, r, named)
+				if ts := fc.e.typeSpecNamed(named); ts != nil && len(ts.ConstInvs) > 0 {
+					for _, li := range fr.loops {
+						if li.body[ins.Block()] {
+							fc.unsupported("allocation of %s (a type with construction invariants) inside a loop", named.Obj().Name())
+						}
+					}
+					st.cAllocs = append(st.cAllocs, constAlloc{ref: r.T, named: named, label: fc.instrLabel(fr, ins)})
+				}
 			}
 		case *types.Array:
 			// backing array for a slice literal: contents zero
